@@ -383,6 +383,14 @@ def oracle(key, tree, printed):
 
 # ---- implementation worker -------------------------------------------------------------------------------------
 def work(case):
+    """one case under a time limit: SymPy occasionally does not come back from evaluating / rewriting a large random tree"""
+    try:
+        return vlib.with_alarm(90, _work, case)
+    except vlib.Timeout:
+        return {'status': 'invalid', 'why': 'timeout: the case did not finish within 90 s'}
+
+
+def _work(case):
     """case: {'tree': json tree, 'ev': bool}.  Returns a JSON-able record."""
     import sympy
     from sympy.codegen.rewriting import optimize
@@ -781,6 +789,12 @@ def evaluate(ctx, cases, results, use_model=True):
             continue
         if r.get('status') != 'ok':
             ctx.count(kind='invalid-for-sympy')
+            if str(r.get('why', '')).startswith('timeout'):
+                ctx.hist['case-timeout'] = ctx.hist.get('case-timeout', 0) + 1
+                if ctx.hist['case-timeout'] == 1 + len(cases) // 500:
+                    # isolated SymPy hangs on large random trees are tolerated; a printer that stops terminating is not
+                    ctx.tie_break('more than %d cases did not finish within the time limit (first: %r)'
+                                  % (len(cases) // 500, case), case)
             continue
         rec = {'case': case, 'detail': {'tree': r['tree'], 'opt': r['opt'], 'kc': r['kc'], 'opt_err': r['opt_err'], 'kc_err': r['kc_err'], 'rw_plain': r['rw_plain'], 'sympy': r['sympy'], 'impl': r['impl']}}
         impl = r['impl']
